@@ -864,8 +864,15 @@ class Interp(ExprMixin, StmtMixin):
         for nme, clause in c.lets.items():
             env[nme] = self.spec_eval(clause, env, clean=True)
         line = self.cur_line
+        from .expr import UnboundLocalInHint
         for label, clause in c.hints.items():
-            g = as_bool(self.spec_eval(clause, env, clean=True))
+            self._strict_locals = True
+            try:
+                g = as_bool(self.spec_eval(clause, env, clean=True))
+            except UnboundLocalInHint:
+                continue
+            finally:
+                self._strict_locals = False
             self.oblige("hint:" + label, g, line, clause=clause)
             if _has_quantifier(g):
                 st.pc.append(g)
